@@ -1,4 +1,5 @@
 import CnlProofs.Native
+import CnlProofs.Kernels
 /-!
 # C12 — wrapping is transparent
 
@@ -10,9 +11,31 @@ expression on the underlying integers.  `nest ls T` is any nesting of
 `cBin`, `cCmp`, `cUn` are the built-in operators of `CnlModel.CInt`; the result `Res` carries
 undefined behaviour, so the statements also say the wrapped expression is undefined exactly when
 the bare one is.  All theorems hold for nests of any depth and integer types of any width.
+
+**Documentation kernels** (`kernel_*`): the four fixed-point kernels of the documentation that the
+harness runs next to their hand-written shift-and-operate code (`T` the operand representation, `W`
+the widened one, `a, a2 : scaled_integer<T, power<e1>>` with representations `l, r`,
+`b : scaled_integer<T, power<e2>>` with representation `r`, `WA = scaled_integer<W, power<e1>>`):
+
+    mulwiden   WA{a} * a2                      W(l) * r
+    mixadd     a + b                           l + r * (T(1) << (e2-e1))   /   l * (T(1) << (e1-e2)) + r
+    average    (WA{a} + a2) >> constant<1>{}   W(l) + r
+    square     WA{a} * WA{a}                   W(l) * W(l)
+
+Each CNL expression is observationally the hand-written code: same representation value, same
+representation type, undefined exactly when the hand-written code is, at the documented exponent
+(`e1+e1`, `min e1 e2`, `e1-1`, `e1+e1`).  The widening kernels hold for **all** `T`, `W`, exponents,
+radixes and operand values with no hypothesis (`W` need not even be wider: then both sides overflow
+together); `kernel_mixadd` needs the operands in range of `T` and `2^|e2-e1|` representable in `T`
+(the hand-written `T(1) << k` is converted back to `T`).  The `_exact` theorems add the value: when
+`W` holds every product (`HoldsProducts`: twice the digits of `T`, plus one if `T` is signed — true
+of i8/i16, i16/i32, i32/i64, u16/u32) resp. every sum (`HoldsSums`) of two values of `T`, the
+kernels are never undefined and return exactly `l·r`, `l+r`, `l·l`.
 -/
 namespace Cnl.C12
 open Cnl Cnl.Layered Cnl.Native
+open Cnl.ScaledP (sc)
+open Cnl.KernelsP (shrConst mixaddHand HoldsProducts HoldsSums)
 
 /-- `+ - * / % & | ^` on two numbers of the same native nest -/
 theorem bin_transparent (ls : List Layer) (op : BinOp) (hs : isShift op = false)
@@ -112,10 +135,99 @@ theorem decrement_transparent (ls : List Layer) (L : IntTy) (l : Int) :
       = (cBin .sub (L, l) (i32, 1)) >>= fun v => .ok (nest ls L, L.wrap v.2) :=
   compound_int_transparent ls .sub rfl L i32 l 1
 
+
+/-! ## Documentation kernels: the CNL expression is the hand-written shift-and-operate code -/
+
+/-- `WA{a} * a2` is `W(l) * r` at exponent `e1 + e2` (the harness has `e2 = e1`): value,
+representation type and undefined cases, for all types, exponents, radixes and values -/
+theorem kernel_mulwiden (T W : IntTy) (e1 e2 : Int) (ρ : Nat) (l r : Int) :
+    (Layered.cast (.sc (.int W) e1 ρ) (sc T e1 ρ l) >>= fun wa => Layered.bin .mul wa (sc T e2 ρ r))
+      = (cBin .mul (convert W (T, l)) (T, r)).map (fun v => sc v.1 (e1 + e2) ρ v.2) :=
+  KernelsP.mulwiden_eq T W e1 e2 ρ l r
+
+/-- … and when `W` holds every product of two values of `T` it is never undefined and exact -/
+theorem kernel_mulwiden_exact (T W : IntTy) (hT : 1 ≤ T.bits) (hW : HoldsProducts T W) (e1 e2 : Int) (ρ : Nat)
+    (l r : Int) (hl : T.InRange l) (hr : T.InRange r) :
+    (Layered.cast (.sc (.int W) e1 ρ) (sc T e1 ρ l) >>= fun wa => Layered.bin .mul wa (sc T e2 ρ r))
+      = .ok (sc (usualArith W T) (e1 + e2) ρ (l * r)) := by
+  rw [kernel_mulwiden, KernelsP.widen_mul_exact hT hW hl hr]; rfl
+
+/-- `WA{a} * WA{a}` is `W(l) * W(l)` at exponent `e1 + e1` -/
+theorem kernel_square (T W : IntTy) (e1 : Int) (ρ : Nat) (l : Int) :
+    (Layered.cast (.sc (.int W) e1 ρ) (sc T e1 ρ l) >>= fun wa => Layered.bin .mul wa wa)
+      = (cBin .mul (convert W (T, l)) (convert W (T, l))).map (fun v => sc v.1 (e1 + e1) ρ v.2) :=
+  KernelsP.square_eq T W e1 ρ l
+
+theorem kernel_square_exact (T W : IntTy) (hT : 1 ≤ T.bits) (hW : HoldsProducts T W) (e1 : Int) (ρ : Nat)
+    (l : Int) (hl : T.InRange l) :
+    (Layered.cast (.sc (.int W) e1 ρ) (sc T e1 ρ l) >>= fun wa => Layered.bin .mul wa wa)
+      = .ok (sc (promote W) (e1 + e1) ρ (l * l)) := by
+  rw [kernel_square, KernelsP.widen_square_exact hT hW hl]; rfl
+
+/-- `(WA{a} + a2) >> constant<1>{}` is `W(l) + r` at exponent `e1 - 1`: the sum of the
+representations read one binary place lower is the average.  `shrConst 1` is the
+`>> constant<1>` overload, which only lowers the exponent -/
+theorem kernel_average (T W : IntTy) (e1 : Int) (ρ : Nat) (l r : Int) :
+    (Layered.cast (.sc (.int W) e1 ρ) (sc T e1 ρ l) >>= fun wa =>
+      Layered.bin .add wa (sc T e1 ρ r) >>= fun s => shrConst 1 s)
+      = (cBin .add (convert W (T, l)) (T, r)).map (fun v => sc v.1 (e1 - 1) ρ v.2) :=
+  KernelsP.average_eq T W e1 ρ l r
+
+theorem kernel_average_exact (T W : IntTy) (hT : 1 ≤ T.bits) (hW : HoldsSums T W) (e1 : Int) (ρ : Nat)
+    (l r : Int) (hl : T.InRange l) (hr : T.InRange r) :
+    (Layered.cast (.sc (.int W) e1 ρ) (sc T e1 ρ l) >>= fun wa =>
+      Layered.bin .add wa (sc T e1 ρ r) >>= fun s => shrConst 1 s)
+      = .ok (sc (usualArith W T) (e1 - 1) ρ (l + r)) := by
+  rw [kernel_average, KernelsP.widen_add_exact hT hW hl hr]; rfl
+
+/-- `a + b` with different exponents is the hand-written "shift the coarser operand left, then add"
+(`mixaddHand`: `l + r * (T(1) << (e2-e1))` if `e1 ≤ e2`, else `l * (T(1) << (e1-e2)) + r`) at exponent
+`min e1 e2`, including the promoted result type and the overflow of either the alignment or the sum.
+Guard: operands in range, `2^|e2-e1|` is a value of `T` -/
+theorem kernel_mixadd (T : IntTy) (hT : 1 ≤ T.bits) (e1 e2 : Int) (l r : Int) (hl : T.InRange l) (hr : T.InRange r)
+    (hk : (e2 - e1).natAbs < T.digits) :
+    Layered.bin .add (sc T e1 2 l) (sc T e2 2 r)
+      = (mixaddHand T e1 e2 l r).map (fun v => sc v.1 (min e1 e2) 2 v.2) :=
+  KernelsP.mixadd_eq T hT e1 e2 l r hl hr hk
+
+/-- `mixaddHand` is literally the hand-written code -/
+theorem mixaddHand_def (T : IntTy) (e1 e2 l r : Int) :
+    mixaddHand T e1 e2 l r
+      = if e1 ≤ e2 then
+          cBin .shl (T, 1) (i32, e2 - e1) >>= fun p => cBin .mul (T, r) (convert T p) >>= fun q => cBin .add (T, l) q
+        else
+          cBin .shl (T, 1) (i32, e1 - e2) >>= fun p => cBin .mul (T, l) (convert T p) >>= fun q => cBin .add q (T, r) :=
+  rfl
+
+/-- under the fit guard (C01's addition theorem specialised): alignment is multiplication by
+`2^(e2-e1)` in the promoted type, the sum is exact -/
+theorem kernel_mixadd_value (T : IntTy) (hT : 1 ≤ T.bits) (e1 e2 : Int) (h12 : e1 ≤ e2) (l r : Int)
+    (hl : T.InRange l) (hr : T.InRange r) (hk : (e2 - e1).toNat < T.digits)
+    (hfit : (promote T).InRange (r * 2^(e2 - e1).toNat))
+    (hres : (promote T).InRange (l + r * 2^(e2 - e1).toNat)) :
+    Layered.bin .add (sc T e1 2 l) (sc T e2 2 r) = .ok (sc (promote T) e1 2 (l + r * 2^(e2 - e1).toNat)) :=
+  KernelsP.mixadd_value T hT e1 e2 h12 l r hl hr hk hfit hres
+
 /-! Non-vacuity: concrete instances (a three-deep nest over 8/16-bit reps). -/
 example : Layered.bin .add (nest [.sc 2, .ov, .rd] i8, 100) (nest [.sc 2, .ov, .rd] i16, 28)
     = .ok (nest [.sc 2, .ov, .rd] i32, 128) := by decide
 example : Layered.bin .mul (nest [.ov] i32, 65536) (nest [.ov] i32, 65536) = .ub .signedOverflow := by decide
 example : Layered.cmp .lt (nest [.sc 2] i32, -1) (nest [.sc 2] u32, 0) = .ok false := by decide
+
+-- kernels: the harness's type pairs satisfy the width conditions; concrete evaluations
+example : HoldsProducts i32 i64 ∧ HoldsProducts i16 i32 ∧ HoldsProducts i8 i16 ∧ HoldsProducts u16 u32 := by decide
+example : HoldsSums i32 i64 ∧ HoldsSums i16 i32 ∧ HoldsSums i8 i16 ∧ HoldsSums u16 u32 := by decide
+example : (Layered.cast (.sc (.int i64) (-16) 2) (sc i32 (-16) 2 100000) >>= fun wa => Layered.bin .mul wa (sc i32 (-16) 2 (-100000)))
+    = .ok (sc i64 (-32) 2 (-10000000000)) := by decide +kernel
+-- without widening both the CNL expression and the hand-written code overflow
+example : (Layered.cast (.sc (.int i32) (-16) 2) (sc i32 (-16) 2 100000) >>= fun wa => Layered.bin .mul wa (sc i32 (-16) 2 100000))
+    = .ub .signedOverflow := by decide
+example : (Layered.cast (.sc (.int i16) (-3) 2) (sc i8 (-3) 2 (-128)) >>= fun wa => Layered.bin .mul wa wa)
+    = .ok (sc i32 (-6) 2 16384) := by decide
+example : (Layered.cast (.sc (.int u32) (-4) 2) (sc u16 (-4) 2 65535) >>= fun wa =>
+    Layered.bin .add wa (sc u16 (-4) 2 65535) >>= fun s => shrConst 1 s) = .ok (sc u32 (-5) 2 131070) := by decide
+example : Layered.bin .add (sc i16 (-8) 2 300) (sc i16 (-4) 2 5) = .ok (sc i32 (-8) 2 380) := by decide
+example : mixaddHand i16 (-8) (-4) 300 5 = .ok (i32, 380) := by decide
+example : mixaddHand i32 (-8) (-20) 2147483647 5 = .ub .signedOverflow := by decide
 
 end Cnl.C12
